@@ -108,6 +108,7 @@ def run(prog, chk):
     chk.decided += ["ReverseContourDirectionFilter reverses every contour of every glyph that has contours, whatever the glyph looks like: the only glyphs passed over are those without contours (R02.18)"]
     chk.decided += ["the TrueType glyph is the one the glyf pen built: no package code assigns, deletes or edits in place the outline fields of a compiled glyph (coordinates, endPtsOfContours, "
                     "numberOfContours; point flags except the reviewed overlap bit; component flags except the reviewed bits) (R02.16)"]
+    chk.decided += ["a filter helper whose result the caller rewrites in place (the flattened component list) returns a fresh object on every path and keeps no second reference to it - no memo can be corrupted by the rewrite (R02.21)"]
     chk.not_decided += ["the cu2qu error bound itself", "point-for-point equality", "maxp counts (fontTools recalc)"]
     chk.guard(r021, prog, chk)
     chk.guard(r022, prog, chk)
@@ -132,6 +133,7 @@ def run(prog, chk):
     chk.guard(check_outline_option_overrides, prog, chk, "R02.17")
     from .c01 import check_default_filters_kept
     chk.guard(check_default_filters_kept, prog, chk, "R02.20")
+    chk.guard(check_mutated_results_fresh, prog, chk, "R02.21")
 
 
 def _append_of(prog, fi, ctor_name):
@@ -875,7 +877,63 @@ def r0219(prog, chk):
     chk.minimum("R02.19", 2)
 
 
+# ----------------------------------------------------------------------------- R02.21
+_FRESH_CALLS = {"list", "dict", "set", "sorted", "tuple", "copy", "deepcopy", "frozenset"}
+_INPLACE = {"append", "extend", "insert", "pop", "remove", "clear", "sort", "reverse", "update", "add", "discard", "setdefault", "popitem"}
+
+
+def check_mutated_results_fresh(prog, chk, rule):
+    """In the filters package, a helper whose result a caller rewrites in place hands out a fresh object on every
+    path, and keeps no second reference to it (in a memo, on the context): otherwise the caller's rewrite - e.g. applying
+    the parent component's transformation to the flattened list - silently changes what later calls get back."""
+    ix = prog.ix
+    n = 0
+    for f in list(ix.functions.values()):
+        if isinstance(f.node, ast.Lambda) or not f.module.name.startswith("ufo2ft.filters."):
+            continue
+        for st in A.stmts_of(f.node):
+            if not (isinstance(st, ast.Assign) and len(st.targets) == 1 and isinstance(st.targets[0], ast.Name) and isinstance(st.value, ast.Call) and isinstance(st.value.func, ast.Name)):
+                continue
+            v = st.targets[0].id
+            try:
+                g = ix.get_func(f"{f.module.name}:{st.value.func.id}")
+            except AnalysisError:
+                continue
+            muts = [x for x in ast.walk(f.node) if (isinstance(x, ast.Subscript) and isinstance(x.ctx, (ast.Store, ast.Del)) and isinstance(x.value, ast.Name) and x.value.id == v)
+                    or (isinstance(x, ast.Call) and isinstance(x.func, ast.Attribute) and x.func.attr in _INPLACE and isinstance(x.func.value, ast.Name) and x.func.value.id == v)
+                    or (isinstance(x, ast.AugAssign) and isinstance(x.target, ast.Name) and x.target.id == v)]
+            if not muts:
+                continue
+
+            def fresh(x, ff):
+                return isinstance(x, (ast.List, ast.ListComp, ast.Dict, ast.DictComp, ast.Set, ast.SetComp, ast.Tuple, ast.BinOp)) or (isinstance(x, ast.Call) and A.callee_name(x) in _FRESH_CALLS)
+            bad = None
+            rets = [r for r in A.returns_of(g.node) if r.value is not None]
+            for r in rets:
+                ok, _b = every_origin(prog, g, r.value, fresh, allow_const=False)
+                if not ok:
+                    bad = (r, f"`{T(r, 50)}` hands out an object that is not created for this call")
+            # no second reference kept: a returned local is not stored into a container / attribute
+            rnames = {r.value.id for r in rets if isinstance(r.value, ast.Name)}
+            for x in A.stmts_of(g.node):
+                if isinstance(x, ast.Assign) and isinstance(x.value, ast.Name) and x.value.id in rnames and any(isinstance(t, (ast.Subscript, ast.Attribute)) for t in x.targets):
+                    bad = (x, f"`{T(x, 50)}` keeps a second reference to the returned object")
+            for c in A.calls_in(g.node):
+                if isinstance(c.func, ast.Attribute) and c.func.attr in ("setdefault", "append", "add", "__setitem__") and any(isinstance(a, ast.Name) and a.id in rnames for a in c.args) \
+                        and not (isinstance(c.func.value, ast.Name) and c.func.value.id in rnames):
+                    bad = (c, f"`{T(c, 50)}` keeps a second reference to the returned object")
+            n += 1
+            chk.ob(rule, f"{g.short}|result rewritten in place by {f.short}: fresh on every path, no second reference", bad is None, where(g, bad[0]) if bad else where(g), detail=f"{f.short}: `{T(muts[0], 50)}`",
+                   message=f"{g.short}: {bad[1] if bad else ''}, while {f.short} rewrites the result in place (`{T(muts[0], 50)}`): the rewrite leaks into what later calls receive "
+                           f"(a memoised flattening gets the parent's transformation applied once more for every reuse)")
+    chk.minimum(rule, 1)
+
+
 MUTANTS = [
+    M("flattened component lists memoised and then rewritten in place by the caller (seeded C02n)", "ufo2ft/filters/flattenComponents.py", "_flattenComponent",
+      "return all_flattened_components", "_MEMO[component.baseGlyph, tuple(component.transformation), id(glyphSet)] = all_flattened_components\nreturn all_flattened_components", rule="R02.21",
+      also=(("ufo2ft/filters/flattenComponents.py", "_flattenComponent", "glyph = glyphSet[component.baseGlyph]", "glyph = glyphSet[component.baseGlyph]\nif (component.baseGlyph, tuple(component.transformation), id(glyphSet)) in _MEMO:\n    return _MEMO[component.baseGlyph, tuple(component.transformation), id(glyphSet)]"),
+            ("ufo2ft/filters/flattenComponents.py", "", "<append-module>", "_MEMO = {}"))),
     M("contours keyed by their bounding box before sorting: equal boxes collapse (seeded C02k)", "ufo2ft/filters/sortContours.py", "SortContoursFilter.filter",
       "contours = sorted((c for c in glyph), key=lambda contour: _control_bounding_box(contour))",
       "boxes = {_control_bounding_box(contour): contour for contour in glyph}\ncontours = [boxes[box] for box in sorted(boxes)]", rule="R02.19"),
